@@ -45,6 +45,27 @@ Proof.
   unfold in_die; cbn [fst snd]. splits; apply Qcleb_true; vm_compute; reflexivity.
 Qed.
 
+(* C13_fr_last_step_corner: a 10 x 10 die, a fixed terminal on the corner (0,0) and a movable one at (1/2, 3/8)
+   pulled towards it with a force far above the temperature: the single iteration (t = 1) would carry it to
+   about (-0.3, -0.22), past both borders; it comes back exactly on the corner *)
+Definition ex_corner_nl : netlist unit unit :=
+  mkNl [mkMod (Some (0, 0)) true tt; mkMod (Some (qc 1 2, qc 3 8)) false tt] tt.
+Definition ex_corner_force (i : nat) (t : Qc) (pos : list vec) (v : nat) : vec * Qc :=
+  ((- qc 40 1, - qc 30 1), qc 50 1).
+Example ex_corner_hyp :
+  let W := qc 10 1 in let H := qc 10 1 in
+  let tl := temp_at (t_init W H) (dt_of W H 1) 0 in
+  let p := (qc 1 2 - W * half, qc 3 8 - H * half) in
+  nth_error (iterate ex_corner_force W H (dt_of W H 1) [true; false] 0 0 (t_init W H)
+               (map (recentre W H) (modules ex_corner_nl))) 1 = Some p /\
+  fst p + (- qc 40 1) / qc 50 1 * Qcmin (qc 50 1) tl <= - (W * half) /\
+  snd p + (- qc 30 1) / qc 50 1 * Qcmin (qc 50 1) tl <= - (H * half).
+Proof. cbv zeta. splits; [reflexivity| |]; apply Qcleb_true; vm_compute; reflexivity. Qed.
+Example ex_corner_layout :
+  list_eqb (opt_eqb (vclose 0)) (map centre (modules (fr_layout ex_corner_force (qc 10 1) (qc 10 1) 1 ex_corner_nl)))
+           [Some (0, 0); Some (0, 0)] = true.
+Proof. vm_compute. reflexivity. Qed.
+
 (* force_algorithm on a cost that prefers kappa = 0.7 and ties at 0.9: the first minimum wins *)
 Example ex_select :
   Qceqb (select None 0 [(qc 4 10, qc 5 1); (qc 7 10, qc 2 1); (qc 9 10, qc 2 1); (qc 15 10, qc 3 1)]) (qc 7 10) = true.
